@@ -456,6 +456,23 @@ def render_counter(facts):
             "Definition counter_checked : bool := %s.\nDefinition counter_limit : N := %d.\nDefinition struct_size_checked : bool := %s.\n" % ("true" if facts["counter_checked"] else "false", facts["counter_limit"], "true" if facts["struct_size_checked"] else "false"))
 
 
+def scrape_consts():
+    """ConstFacts.v: does the float range check parse the literal as written? (C17)"""
+    facts, problems = {}, []
+    t = read("idlc_ast/src/ast.rs")
+    as_written = bool(re.search(r"let literal = value;\s*let value = &value\.replace\(\"0x\", \"\"\);", t)) and "literal.parse::<f32>()" in t and "literal.parse::<f64>()" in t
+    stripped = "value.parse::<f32>()" in t and "value.parse::<f64>()" in t and not as_written
+    facts["float_parsed_as_written"] = as_written
+    if as_written == stripped:
+        problems.append("ast.rs: which text the floating-point range check parses is not recognised")
+    return facts, problems
+
+
+def render_consts(facts):
+    return ("(* GENERATED by lib/translate.py: the text Primitive::new parses for floating-point constants. *)\nRequire Import Base.\n\n"
+            "Definition float_parsed_as_written : bool := %s.\n" % ("true" if facts["float_parsed_as_written"] else "false"))
+
+
 def render_own(facts):
     out = ["(* GENERATED by lib/translate.py: ownership idioms of the object visitors (C, C++, Rust emitters) and of ProxyBase::consume. *)",
            "Require Import Base.", ""]
@@ -534,6 +551,11 @@ def main(outdir, probe=None):
     F.items["counter"] = kf
     if not kproblems:
         write_if_changed(os.path.join(outdir, "CounterFacts.v"), render_counter(kf))
+    nf, nproblems = scrape_consts()
+    F.problems += nproblems
+    F.items["consts"] = nf
+    if not nproblems:
+        write_if_changed(os.path.join(outdir, "ConstFacts.v"), render_consts(nf))
     cf, cproblems = scrape_conc()
     F.problems += cproblems
     F.items["conc"] = cf
